@@ -21,7 +21,7 @@ import (
 func init() {
 	Registry["C10"] = &Check{
 		Scenarios: c10Scenarios,
-		Rule: "on the server side another peer has completed its capabilities exchange with the same state machine on a connection of its own before every history; message flag bits P and T rotate with the position in the history; server side: every history of <=4 (thorough 5) peer messages over {acceptable CER, CER without common application, CER lacking Origin-Host and every application AVP, retransmitted CER, DWR, RAR (app 0), RAA, CCR (app 4), ACR (app 3)}; client side (sm.Client.NewConn): every history of <=4 (thorough 5) messages over {success CEA, failing CEA (result code rotating over 5010, 1001, 3004, 1, 4001, 5012), application-less CEA, a CER sent by the peer, DWR, RAR, RAA, CCA} sent in reply to the CER; application handlers registered by short name, by index and as catch-all (three configurations), each after attempts to register CER / CEA / DWR by name and by index; each history delivered in one segment and one segment per message; and histories (one shorter, with an unsolicited success CEA added to the alphabet) on an accepted connection served by a state machine that is also the handler of an sm.Client whose dial has completed. Plus scheduled scenarios (preemption bound 2, thorough 3): the peer never answers the CER and sends application requests half an interval before, exactly at and half an interval after the instant the client's handshake gives up. One deterministic schedule per history on the instrumented build (the quantifier is over histories; the scheduler supplies determinism and an exact notion of quiescence). Oracle: the sequence of application-handler invocations equals the gate model (invoked iff the handshake succeeded earlier on this connection), refused registrations never run, and the built-in CEA/DWA are still produced.",
+		Rule: "on the server side another peer has completed its capabilities exchange with the same state machine on a connection of its own before every history; message flag bits P and T rotate with the position in the history; server side: every history of <=4 (thorough 5) peer messages over {acceptable CER, CER without common application, CER lacking Origin-Host and every application AVP, retransmitted CER, DWR, RAR (app 0), RAA, CCR (app 4), ACR (app 3)}; client side (sm.Client.NewConn): every history of <=4 (thorough 5) messages over {success CEA, failing CEA (result code rotating over 5010, 1001, 3004, 1, 4001, 5012), application-less CEA, a CER sent by the peer, DWR, RAR, RAA, CCA} sent in reply to the CER; application handlers registered by short name, by index and as catch-all (three configurations; names and the catch-all through HandleFunc in the one-segment histories and through Handle with a handler object in the others), each after attempts to register CER / CEA / DWR by name and by index; each history delivered in one segment and one segment per message; and histories (one shorter, with an unsolicited success CEA added to the alphabet) on an accepted connection served by a state machine that is also the handler of an sm.Client whose dial has completed. Plus scheduled scenarios (preemption bound 2, thorough 3): the peer never answers the CER and sends application requests half an interval before, exactly at and half an interval after the instant the client's handshake gives up. One deterministic schedule per history on the instrumented build (the quantifier is over histories; the scheduler supplies determinism and an exact notion of quiescence). Oracle: the sequence of application-handler invocations equals the gate model (invoked iff the handshake succeeded earlier on this connection), refused registrations never run, and the built-in CEA/DWA are still produced.",
 		Assume: []string{"single default schedule per history", "reference gate model {handshake done, closed}"},
 		QuickBudget: 120, ThoroughBudget: 1800,
 	}
@@ -98,6 +98,10 @@ type c10Run struct {
 	forbidden []string // invocations of handlers whose registration must have been refused
 }
 
+// c10UseObjects selects the registration entry point for short names and the catch-all:
+// StateMachine.HandleFunc (false) or StateMachine.Handle with a handler object (true).
+var c10UseObjects bool
+
 func c10Register(mach *sm.StateMachine, cfg string, r *c10Run) {
 	bad := func(name string) diam.HandlerFunc {
 		return func(c diam.Conn, m *diam.Message) { r.forbidden = append(r.forbidden, name) }
@@ -121,14 +125,22 @@ func c10Register(mach *sm.StateMachine, cfg string, r *c10Run) {
 	switch cfg {
 	case "name":
 		for k := range c10Idx {
-			mach.HandleFunc(k, app(k))
+			if c10UseObjects {
+				mach.Handle(k, diam.HandlerFunc(app(k)))
+			} else {
+				mach.HandleFunc(k, app(k))
+			}
 		}
 	case "index":
 		for k, idx := range c10Idx {
 			mach.HandleIdx(idx, app(k))
 		}
 	case "all":
-		mach.HandleFunc("ALL", app("ALL"))
+		if c10UseObjects {
+			mach.Handle("ALL", diam.HandlerFunc(app("ALL")))
+		} else {
+			mach.HandleFunc("ALL", app("ALL"))
+		}
 	}
 	// drain refused-registration reports so that the capacity-1 channel does not matter
 	for {
@@ -311,6 +323,7 @@ func c10Server(r *SeqResult, cfg string, oneSeg bool, hists [][]string) {
 			conn = vnet.NewConn("S")
 			conn.Pieces = 1
 			mach := sm.New(c10Settings())
+			c10UseObjects = !oneSeg // one-segment histories register with HandleFunc, the others with Handle(name, handler object)
 			c10Register(mach, cfg, run)
 			// another peer has completed its capabilities exchange with this state machine before (on a
 			// connection of its own): nothing of it may carry over to this connection
@@ -429,6 +442,7 @@ func c10Client(r *SeqResult, cfg string, oneSeg bool, hists [][]string) {
 			conn = vnet.NewConn("C")
 			conn.Pieces = 1
 			mach := sm.New(c10Settings())
+			c10UseObjects = !oneSeg // one-segment histories register with HandleFunc, the others with Handle(name, handler object)
 			c10Register(mach, cfg, run)
 			cli := &sm.Client{Handler: mach, Dict: dict.Default, MaxRetransmits: 0, RetransmitInterval: time.Second,
 				AuthApplicationID: []*diam.AVP{diam.NewAVP(avp.AuthApplicationID, avp.Mbit, 0, datatype.Unsigned32(4))}}
